@@ -179,15 +179,21 @@ Section W.
   (* ---------------------------------------------------------------------------------------------------------------- *)
   Definition below_limit (o : sopts) (ni : nat) : Prop := ni = 0 \/ ni < o_io_error_limit o.
 
+  (* during the loop the count stays below the limit (a run that did not bail never reached it); the end-of-run flush of the
+     writers' last reports (sync.c `end:`) may add ONE without testing the limit *)
+  Definition below_limit_end (o : sopts) (n : nat) : Prop := below_limit o (pred n) \/ below_limit o n.
+
   Theorem error_limit o now fs faults wf m lag : forall stripes stop it q nfail c par ne ns ni,
     below_limit o ni ->
     let r := sync_loop_w hashf bs nlev o now fs faults wf m lag stripes stop it q nfail c par ne ns ni in
-    ro_bailed (w_run r) = false -> below_limit o (ro_nio (w_run r)).
+    ro_bailed (w_run r) = false -> below_limit_end o (ro_nio (w_run r)).
   Proof.
-    induction stripes as [|pos rest IH]; intros stop it q nfail c par ne ns ni HL; cbn [sync_loop_w]; cbv zeta; [intros _; exact HL|].
+    assert (Base : forall q ni, below_limit o ni -> below_limit_end o (snd (flush_counts q 0 ni))).
+    { intros q ni HL. unfold flush_counts. cbn [snd]. destruct (0 <? sum_eio q); [left; exact HL | right; exact HL]. }
+    induction stripes as [|pos rest IH]; intros stop it q nfail c par ne ns ni HL; cbn [sync_loop_w]; cbv zeta; [intros _; apply (Base q ni HL)|].
     destruct (negb (stripe_enabled o _)); [apply IH; exact HL|].
     pose proof (stripe_error_limit o now ni c (map (fun lv => nth pos lv PNone) par) fs (faults pos) pos) as SL. cbv zeta in SL.
-    destruct stop as [[|k]|]; [intros _; exact HL | |];
+    destruct stop as [[|k]|]; [intros _; apply (Base q ni HL) | |];
       (destruct (so_bail (sync_stripe hashf bs nlev o now ni c (map (fun lv => nth pos lv PNone) par) fs (faults pos) pos)); [simpl; discriminate|];
        specialize (SL eq_refl);
        assert (HL1 : below_limit o (ni + so_nio (sync_stripe hashf bs nlev o now ni c (map (fun lv => nth pos lv PNone) par) fs (faults pos) pos)))
@@ -220,10 +226,17 @@ Section W.
     let r := sync_loop_w hashf bs nlev o now fs faults wf m lag stripes stop it q nfail c par ne ns ni in
     acct_ok (w_lost r) (w_nfail r) (ro_nerr (w_run r)) (ro_nsilent (w_run r)) (ro_nio (w_run r)).
   Proof.
-    induction stripes as [|pos rest IH]; intros stop it q nfail c par ne ns ni HK; cbn [sync_loop_w]; cbv zeta; [exact HK|].
+    assert (Base : forall q nfail ne ns ni, acct_ok q nfail ne ns ni ->
+                     acct_ok [] nfail (fst (flush_counts q ne ni)) ns (snd (flush_counts q ne ni))).
+    { intros q nfail ne ns ni [HF HL]. split; [constructor|]. unfold flush_counts. cbn [fst snd]. intro E.
+      destruct (0 <? sum_err q) eqn:E1; [lia|]. destruct (0 <? sum_eio q) eqn:E2; [lia|].
+      apply Nat.ltb_ge in E1. apply Nat.ltb_ge in E2.
+      assert (Eq : q = []) by (apply sums_zero_nil; [exact HF | lia | lia]).
+      rewrite <- (HL E). rewrite Eq. reflexivity. }
+    induction stripes as [|pos rest IH]; intros stop it q nfail c par ne ns ni HK; cbn [sync_loop_w]; cbv zeta; [apply Base; exact HK|].
     destruct (negb (stripe_enabled o _)); [apply IH; exact HK|].
     set (r := sync_stripe hashf bs nlev o now ni c (map (fun lv => nth pos lv PNone) par) fs (faults pos) pos).
-    destruct stop as [[|k]|]; [exact HK | |];
+    destruct stop as [[|k]|]; [apply Base; exact HK | |];
       (destruct HK as [HF HL];
        destruct (so_bail r); [simpl; split; [exact HF | intro E; apply HL; lia]|];
        set (neio := match so_write r with Some _ => count_levels w_is_eio (wf pos) (length par) | None => 0 end);
@@ -275,6 +288,56 @@ Section W.
        destruct (0 <? _); [reflexivity|];
        apply IH).
   Qed.
+
+  (* a bail always comes with a counted error *)
+  Definition bail_counted (a : acc) : Prop := a_bail a = true -> 0 < a_nerr a + a_nio a.
+  Lemma disk_step_bail_counted o iob a x : bail_counted a -> bail_counted (disk_step hashf bs o iob a x).
+  Proof.
+    intro H. destruct x as [[j s] r]. unfold disk_step. destruct (a_bail a) eqn:Eb; [exact H|].
+    unfold bail_counted. dmatch; intro; try congruence; simpl in *; lia.
+  Qed.
+  Lemma fold_bail_counted o iob l : forall a, bail_counted a -> bail_counted (fold_left (disk_step hashf bs o iob) l a).
+  Proof. induction l as [|x t IH]; intros a H; simpl; [exact H|]. apply IH. apply disk_step_bail_counted. exact H. Qed.
+  Lemma stripe_bail_counted o now iob c par fs faults pos :
+    let r := sync_stripe hashf bs nlev o now iob c par fs faults pos in
+    so_bail r = true -> 0 < so_nerr r + so_nio r.
+  Proof.
+    cbv zeta. destruct (sync_stripe_counters o now iob c par fs faults pos) as (-> & -> & ->).
+    apply (fold_bail_counted o iob). intro H. discriminate H.
+  Qed.
+
+  Lemma not_bailed_nothing_lost o now fs faults wf m lag : forall stripes stop it q nfail c par ne ns ni,
+    let r := sync_loop_w hashf bs nlev o now fs faults wf m lag stripes stop it q nfail c par ne ns ni in
+    ro_bailed (w_run r) = false -> w_lost r = [].
+  Proof.
+    induction stripes as [|pos rest IH]; intros stop it q nfail c par ne ns ni; cbn [sync_loop_w]; cbv zeta; [reflexivity|].
+    destruct (negb (stripe_enabled o _)); [apply IH|].
+    destruct stop as [[|k]|]; [reflexivity | |];
+      (destruct (so_bail _); [simpl; discriminate|];
+       destruct ((0 <? _) && _); [simpl; discriminate|];
+       destruct (0 <? _); [simpl; discriminate|];
+       apply IH).
+  Qed.
+
+  Lemma failing_of_pos a b d : 0 < a + b + d -> run_failing (mkRun (mkC [] [] 0) [] a b d true) = true.
+  Proof. intro H. unfold run_failing. simpl. destruct (a + b + d =? 0) eqn:E; [apply Nat.eqb_eq in E; lia | reflexivity]. Qed.
+
+  Lemma bailed_failing o now fs faults wf m lag : forall stripes stop it q nfail c par ne ns ni,
+    let r := sync_loop_w hashf bs nlev o now fs faults wf m lag stripes stop it q nfail c par ne ns ni in
+    ro_bailed (w_run r) = true -> run_failing (w_run r) = true.
+  Proof.
+    assert (F : forall c' p' a b d, 0 < a + b + d -> run_failing (mkRun c' p' a b d true) = true).
+    { intros c' p' a b d H. unfold run_failing. simpl. destruct (a + b + d =? 0) eqn:E; [apply Nat.eqb_eq in E; lia | reflexivity]. }
+    induction stripes as [|pos rest IH]; intros stop it q nfail c par ne ns ni; cbn [sync_loop_w]; cbv zeta; [simpl; discriminate|].
+    destruct (negb (stripe_enabled o _)); [apply IH|].
+    pose proof (stripe_bail_counted o now ni c (map (fun lv => nth pos lv PNone) par) fs (faults pos) pos) as SB. cbv zeta in SB.
+    destruct stop as [[|k]|]; [simpl; discriminate | |];
+      (destruct (so_bail _) eqn:Eb; [intros _; simpl; apply F; specialize (SB eq_refl); lia|];
+       destruct (0 <? sum_eio _) eqn:Ece; cbn [andb];
+       [ destruct (o_io_error_limit o <=? _); [intros _; simpl; apply F; lia|];
+         destruct (0 <? sum_err _); [intros _; simpl; apply F; lia | apply IH]
+       | destruct (0 <? sum_err _); [intros _; simpl; apply F; lia | apply IH] ]).
+  Qed.
 End W.
 
 (* ---------------------------------------------------------------------------------------------------------------- *)
@@ -299,6 +362,19 @@ Theorem write_error_exit_mono hashf bs nlev o now fs faults wf lag stripes stop 
 Proof.
   intros r H. apply write_error_exit_partial. fold r.
   unfold r. rewrite mono_nothing_lost. exact H.
+Qed.
+
+(* since the repair 1304269 of F-C08-last-writer-errors-lost: whenever ANY parity write of the run failed the exit status is
+   failing, in every mode and for every writer schedule (half of the full-strength statement; on the tree before the repair
+   it was refuted by `wrun (Threaded 3) 7`) *)
+Theorem write_error_exit_safe hashf bs nlev o now fs faults wf m lag stripes stop c par :
+  let r := sync_loop_w hashf bs nlev o now fs faults wf m lag stripes stop 0 [] 0 c par 0 0 0 in
+  0 < w_nfail r -> run_failing (w_run r) = true.
+Proof.
+  intros r H. destruct (ro_bailed (w_run r)) eqn:Eb.
+  - apply (bailed_failing hashf bs nlev o now fs faults wf m lag stripes stop 0 [] 0 c par 0 0 0). exact Eb.
+  - apply write_error_exit_partial.
+    rewrite (not_bailed_nothing_lost hashf bs nlev o now fs faults wf m lag stripes stop 0 [] 0 c par 0 0 0 Eb). exact H.
 Qed.
 
 (* ---------------------------------------------------------------------------------------------------------------- *)
